@@ -61,6 +61,19 @@ func genRearm(seed uint64, idx uint64) tlive.Scenario {
 	sc.Rearm = sp
 	sc.NG = sp.Callers
 	sc.Family = fmt.Sprintf("rearm|callers=%d|procs=%d|delay=%d|cancel=%d", sp.Callers, sp.Procs, sp.DelayNs, sp.CancelEvery)
+	if idx%5 == 4 {
+		// arrive while the last worker gives up
+		sp.ExitRaceUs = []int64{50, 100, 100, 200, 400}[r.Intn(5)]
+		sc.IdleUs = sp.ExitRaceUs
+		sp.Fars = 0
+		sp.CancelEvery, sp.Recancel = 0, false
+		sp.DelayNs = []int64{0, 0, 1000}[r.Intn(3)]
+		sp.Callers = []int{1, 1, 1, 2}[r.Intn(4)]
+		sc.NG = sp.Callers
+		sp.Iters = int(int64(300*time.Millisecond) / (sp.ExitRaceUs * 2500))
+		sp.SampleEvery = sp.Iters/6 + 1
+		sc.Family = fmt.Sprintf("exitrace|callers=%d|procs=%d|idle_us=%d", sp.Callers, sp.Procs, sp.ExitRaceUs)
+	}
 	return sc
 }
 
@@ -100,6 +113,12 @@ func runRearm(sc tlive.Scenario, seed uint64) childLine {
 				noisy = true
 			}
 		}
+		if sn := res.Snaps[stalls[0].SnapIndex]; sn.Watchers == 0 && len(sn.Heap) > 0 {
+			// pending futures and no worker at a lock-held snapshot: not a matter of timing (F0)
+			counts["rearm-stall-with-no-worker"]++
+			confirmed, verdict = 3, "stall"
+			break
+		}
 		if noisy {
 			counts["rearm-stall-discarded-noisy-canary"]++
 			fmt.Fprintf(os.Stderr, "c13: re-arm stall discarded, the canary was late by %v\n", time.Duration(stalls[0].CanaryNs))
@@ -127,6 +146,10 @@ func runRearm(sc tlive.Scenario, seed uint64) childLine {
 	counts[fmt.Sprintf("rearm-procs:%d", sp.Procs)]++
 	counts[fmt.Sprintf("rearm-delay_ns:%d", sp.DelayNs)]++
 	counts[fmt.Sprintf("rearm-idle_us:%d", sc.IdleUs)]++
+	if sp.ExitRaceUs > 0 {
+		counts["rearm-exit-race-scenarios"]++
+		counts["rearm-exit-race-iterations"] += int(agg.Calls)
+	}
 	if sp.CancelEvery > 0 {
 		counts["rearm-with-cancel-head"]++
 	}
